@@ -19,7 +19,7 @@
    [pkg_lock]): a process holds a lock exactly while it is inside the
    corresponding `with OpenLocked(...)` block.  Lock acquisition steps are
    blocking: [step] returns [None] while the lock table forbids them. *)
-From Coq Require Import List NArith Bool Arith.
+From Coq Require Import List NArith Bool Arith Permutation Sorted.
 Import ListNotations.
 Open Scope N_scope.
 
@@ -196,6 +196,7 @@ Definition finish (pr : proc) (r : result) : proc :=
 
 (* ------------------------------------------------------------------ global state *)
 Record state := {
+  st_dir : bool;                       (* the store directory exists *)
   st_store : list (N * pdir);          (* visible package directories, by build-id *)
   st_repo : option (list (N * N));     (* repo.json: None = no file; Some [] also stands for the empty file *)
   st_rtrunc : bool;                    (* repo.json is truncated on disk, its next text is buffered *)
@@ -205,8 +206,8 @@ Record state := {
   st_procs : list proc
 }.
 
-Definition init (procs : list proc) : state :=
-  {| st_store := []; st_repo := None; st_rtrunc := false; st_links := []; st_clk := 0; st_log := [];
+Definition init (dir : bool) (procs : list proc) : state :=
+  {| st_dir := dir; st_store := []; st_repo := None; st_rtrunc := false; st_links := []; st_clk := 0; st_log := [];
      st_procs := procs |}.
 
 (* what open(repo.json).read() returns *)
@@ -224,27 +225,31 @@ Fixpoint set_nth {A} (l : list A) (i : nat) (x : A) : list A :=
   end.
 
 Definition upd_proc (s : state) (i : nat) (pr : proc) : state :=
-  {| st_store := st_store s; st_repo := st_repo s; st_rtrunc := st_rtrunc s; st_links := st_links s;
+  {| st_dir := st_dir s; st_store := st_store s; st_repo := st_repo s; st_rtrunc := st_rtrunc s; st_links := st_links s;
      st_clk := st_clk s; st_log := st_log s; st_procs := set_nth (st_procs s) i pr |}.
 
 Definition with_store (s : state) (st : list (N * pdir)) : state :=
-  {| st_store := st; st_repo := st_repo s; st_rtrunc := st_rtrunc s; st_links := st_links s;
+  {| st_dir := st_dir s; st_store := st; st_repo := st_repo s; st_rtrunc := st_rtrunc s; st_links := st_links s;
      st_clk := st_clk s; st_log := st_log s; st_procs := st_procs s |}.
 
 Definition with_repo (s : state) (r : option (list (N * N))) (trunc : bool) : state :=
-  {| st_store := st_store s; st_repo := r; st_rtrunc := trunc; st_links := st_links s;
+  {| st_dir := st_dir s; st_store := st_store s; st_repo := r; st_rtrunc := trunc; st_links := st_links s;
      st_clk := st_clk s; st_log := st_log s; st_procs := st_procs s |}.
 
 Definition with_links (s : state) (l : list (N * N)) : state :=
-  {| st_store := st_store s; st_repo := st_repo s; st_rtrunc := st_rtrunc s; st_links := l;
+  {| st_dir := st_dir s; st_store := st_store s; st_repo := st_repo s; st_rtrunc := st_rtrunc s; st_links := l;
+     st_clk := st_clk s; st_log := st_log s; st_procs := st_procs s |}.
+
+Definition with_dir (s : state) : state :=
+  {| st_dir := true; st_store := st_store s; st_repo := st_repo s; st_rtrunc := st_rtrunc s; st_links := st_links s;
      st_clk := st_clk s; st_log := st_log s; st_procs := st_procs s |}.
 
 Definition with_log (s : state) (e : bool * N) : state :=
-  {| st_store := st_store s; st_repo := st_repo s; st_rtrunc := st_rtrunc s; st_links := st_links s;
+  {| st_dir := st_dir s; st_store := st_store s; st_repo := st_repo s; st_rtrunc := st_rtrunc s; st_links := st_links s;
      st_clk := st_clk s; st_log := st_log s ++ [e]; st_procs := st_procs s |}.
 
 Definition tick (s : state) : state :=
-  {| st_store := st_store s; st_repo := st_repo s; st_rtrunc := st_rtrunc s; st_links := st_links s;
+  {| st_dir := st_dir s; st_store := st_store s; st_repo := st_repo s; st_rtrunc := st_rtrunc s; st_links := st_links s;
      st_clk := st_clk s + 1; st_log := st_log s; st_procs := st_procs s |}.
 
 (* ------------------------------------------------------------------ lock table (derived from the control points) *)
@@ -389,9 +394,9 @@ Definition step (s : state) (i : nat) : option state :=
         else Some (upd_proc s1 i (set_pc pr ICopy))
     | ICopy =>           (* makedirs, mkdtemp, copy audit + workspace, hashDirectoryWithSize, compare *)
         if o_tree o =? o_expect o
-        then Some (upd_proc s i (set_pc (set_tmp pr (Some {| d_audit := true; d_tree := Some (o_tree o);
+        then Some (upd_proc (with_dir s) i (set_pc (set_tmp pr (Some {| d_audit := true; d_tree := Some (o_tree o);
                                                              d_meta := None; d_trunc := false; d_mtime := 0 |})) IMeta))
-        else Some (upd_proc s i (finish pr (RFail FHash)))
+        else Some (upd_proc (with_dir s) i (finish pr (RFail FHash)))
     | IMeta =>           (* json.dump -> <tmp>/pkg/pkg.json *)
         match p_tmp pr with
         | None => None
@@ -440,11 +445,13 @@ Definition step (s : state) (i : nat) : option state :=
         Some (upd_proc s1 i (finish pr (RInstall (p_inst pr))))
 
     (* ---------------- useSharedPackage (+ builder._useSharedPackage) *)
-    | UOpenRepo =>       (* open(repo.json, "r") *)
-        match st_repo s with
-        | None => Some (upd_proc s i (use_return pr false))
-        | Some _ => Some (upd_proc s i (set_pc pr ULockRepo))
-        end
+    | UOpenRepo =>       (* open(repo.json, "a"): creates the still missing file; fails without store directory *)
+        if st_dir s then
+          match st_repo s with
+          | None => Some (upd_proc (with_repo s (Some []) false) i (set_pc pr ULockRepo))
+          | Some _ => Some (upd_proc s i (set_pc pr ULockRepo))
+          end
+        else Some (upd_proc s i (use_return pr false))
     | ULockRepo =>       (* flock(LOCK_SH) *)
         if repo_free_s s then Some (upd_proc s i (set_pc pr UOpenPkg)) else None
     | UOpenPkg =>        (* open(<pkg>/pkg.json, "r+") *)
@@ -507,7 +514,8 @@ Definition step (s : state) (i : nat) : option state :=
     | GLock =>           (* mkdtemp attic; open r+; flock(LOCK_EX); read *)
         if repo_free_x s then
           match disk_repo s with
-          | Some l => Some (commit s i (after_scan (set_gc (set_repo_mem pr l false 0) l [] [] [] 0)) pr)
+          | Some l => let pr1 := set_gc (set_repo_mem pr l false 0) l [] [] [] 0 in
+                      Some (commit s i (after_scan pr1) pr1)
           | None => Some (upd_proc s i (finish pr (RFail FNoEnt)))
           end
         else None
@@ -580,7 +588,7 @@ Definition act (s : state) (a : action) : state :=
 
 Definition run (s : state) (sched : list action) : state := fold_left act sched s.
 
-Definition reachable (procs : list proc) (s : state) : Prop := exists sched, s = run (init procs) sched.
+Definition reachable (dir : bool) (procs : list proc) (s : state) : Prop := exists sched, s = run (init dir procs) sched.
 
 (* ------------------------------------------------------------------ observation (what the harness compares after every step) *)
 Definition pc_code (pc : pcT) : N :=
@@ -640,7 +648,7 @@ Definition enc_proc (pr : proc) : list N :=
   enc_list (sortN (p_attic pr)).
 
 Definition observe (s : state) : list N :=
-  N.of_nat (length (st_store s)) :: flat_map (fun e => fst e :: enc_dir (snd e)) (sort_keys (st_store s)) ++
+  enc_bool (st_dir s) :: N.of_nat (length (st_store s)) :: flat_map (fun e => fst e :: enc_dir (snd e)) (sort_keys (st_store s)) ++
   match disk_repo s with
   | None => [0]
   | Some l => 1 :: N.of_nat (length l) :: flat_map (fun e => [fst e; snd e]) l
@@ -719,3 +727,30 @@ Definition ops_left (s : state) (g : nat) : nat :=
 
 Definition count_log (e : bool * N) (l : list (bool * N)) : nat :=
   length (filter (fun x => Bool.eqb (fst x) (fst e) && (snd x =? snd e)) l).
+
+(* sum of the sizes of a list of candidates *)
+Definition sizes (l : list cand) : N := fold_right (fun c a => c_size c + a) 0 l.
+
+(* the collection loop does not stop in front of candidate c when the repository size is sz *)
+Definition must_go (quota : option N) (all_unused : bool) (c : cand) (sz : N) : bool :=
+  if negb (c_unused c) || negb all_unused
+  then match quota with Some q => negb (sz <=? q) | None => false end
+  else true.
+
+Definition cand_le (a b : cand) : Prop := cand_leb a b = true.
+
+(* bookkeeping of the collection loop of a gc run (control points GMove, GUnlock) *)
+Definition move_ok (pr : proc) : Prop :=
+  Permutation (p_done pr ++ p_queue pr) (p_cands pr) /\
+  StronglySorted cand_le (p_done pr ++ p_queue pr) /\
+  sizes (p_queue pr) <= p_size pr /\
+  (forall pre c post, p_done pr = pre ++ c :: post ->
+     must_go (p_quota pr) (g_unused pr) c (p_size pr + sizes (c :: post)) = true) /\
+  (p_pc pr = GMove -> exists c rest, p_queue pr = c :: rest /\ must_go (p_quota pr) (g_unused pr) c (p_size pr) = true) /\
+  (p_pc pr = GUnlock -> p_queue pr = [] \/
+     exists c rest, p_queue pr = c :: rest /\ must_go (p_quota pr) (g_unused pr) c (p_size pr) = false).
+
+(* what is known about every candidate *)
+Definition cands_ok (pr : proc) : Prop :=
+  forall c, In c (p_cands pr) ->
+    (c_unused c = true -> is_newpkg pr (c_id c) = false) /\ (g_used pr = false -> c_unused c = true).
